@@ -42,6 +42,7 @@ def cases(tier, seed):
         for first in itertools.product(range(len(KINDS) if n <= 2 else NCORE), repeat=n - 1):
             yield ("seq", first)
     yield ("malformed",)
+    yield ("many-records", 4000 if tier == "thorough" else 1500)
     # file-size family: one plain record of EVERY length in a range (after an optional leading record), so that the end
     # marker and every record header fall on every offset relative to the reader's buffering
     top = 17000 if tier == "thorough" else 8400
@@ -228,6 +229,26 @@ def run_malformed():
             viol.append({"key": "include_ips:malformed-hangs", "msg": f"{name} ({why}) did not terminate"})
         else:
             outcomes.add("malformed-rejected")
+    # the header variants once more in an interpreter that strips assertions (python -O): still rejected
+    import subprocess
+    import sys as _sys
+    for name, data in variants[-6:]:
+        try:
+            ips.parse(data)
+            continue
+        except ips.IpsError:
+            pass
+        impl.write_files({"m.ips": data, "m_o.s": src})
+        code = ("import sys\nsys.path.insert(0, %r)\nfrom a816.program import Program\nclass W:\n    def begin(self): pass\n    def end(self): pass\n"
+                "    def write_block_header(self, b, a): pass\n    def write_block(self, b, a): pass\n"
+                "try:\n    r = Program().assemble_string_with_emitter(open('m_o.s').read(), 'm_o.s', W())\nexcept BaseException as e:\n    r = 'raised'\n"
+                "sys.__stdout__.write('RESULT ' + ('accepted' if r is None else 'rejected') + '\\n')\n" % impl.REPO)
+        pr = subprocess.run([_sys.executable, "-O", "-c", code], capture_output=True, text=True, timeout=60)
+        evals += 1
+        if "RESULT accepted" in pr.stdout:
+            viol.append({"key": "include_ips:malformed-accepted", "msg": f"{name} was accepted by an interpreter run with -O (assertions stripped)"})
+        elif "RESULT rejected" not in pr.stdout:
+            viol.append({"key": "include_ips:harness", "msg": f"-O run produced no result: {(pr.stdout + pr.stderr)[-200:]}"})
     # and the well-formed originals are accepted
     for f in files:
         out = impl.assemble(src, rom="low_rom", files={"m.ips": f})
@@ -236,6 +257,23 @@ def run_malformed():
             viol.append({"key": "include_ips:wellformed-rejected:control", "msg": out.brief()})
     return {"evals": evals, "nt_count": evals, "state_count": len(variants), "transitions": len(variants), "outcome": sorted(outcomes),
             "violations": viol[:20]}
+
+
+def run_many(count):
+    """A patch with very many small records: size only, nothing else special."""
+    viol = []
+    evals = 0
+    for n in (200, 999, 1001, count):
+        recs = [(0x10000 + 8 * i, bytes([(i * 7) & 0xFF, (i >> 8) & 0xFF]), "plain") if i % 5 else (0x10000 + 8 * i, (3, i & 0xFF), "rle") for i in range(n)]
+        data = ips.build(recs)
+        parsed = ips.parse(data)
+        out = impl.assemble(host("between", ".include_ips 'p.ips', 0x10\n"), rom="low_rom", files={"p.ips": data})
+        evals += 1
+        if not out.accepted:
+            viol.append({"key": "include_ips:wellformed-rejected:many-records", "msg": f"{n} records: {out.brief()[:200]}"})
+        elif [b for b in out.blocks if b != HOST_BLOCK] != [(o + 0x10, p) for o, p, _ in parsed]:
+            viol.append({"key": "include_ips:wrong-records:many-records", "msg": f"{n} records: writer calls differ from the patch records"})
+    return {"evals": evals, "nt_count": evals, "state_count": evals, "transitions": evals, "outcome": "many-ok" if not viol else "MANY-WRONG", "violations": viol, "depth": 1}
 
 
 LEADS = ["none", "p5000", "pmax", "rmax", "r4+p3"]
@@ -283,6 +321,8 @@ def run_sizes(lead, lo, hi):
 
 
 def run_case(case):
+    if case[0] == "many-records":
+        return run_many(case[1])
     if case[0] == "size":
         return run_sizes(case[1], case[2], case[3])
     if case[0] == "seq":
